@@ -2,19 +2,16 @@
  * BFS over heartbeat frames, 1016h writes, counter/state queries, ticks; reference monitor per entry. */
 #include "node_common.h"
 
-#define NX 9
-#define NY 10
-#define NZ 11
+static uint8_t NX = 9, NY = 10, NZ = 11, NW = 12;      /* monitored node ids; --opt edge=1: 127, 126, 2, 3 (the ends of the node id range) */
 typedef struct { uint8_t node, armed, events, last; uint16_t time, rem; } MEnt;
 static struct { MEnt e[4]; int n; int stopped; } M;
 static int NENT;
 static uint32_t MSPT = 1;     /* --opt slow=1: 100 Hz timer, i.e. 10 ms per tick; every time of the alphabet is then given in units of 10 ms */
 
-#define NW 12
-static const uint8_t HB_NODE[] = { NX, NY, NZ, NW }, HB_STATE[] = { 0, 4, 5, 127 };
+static uint8_t HB_NODE[4]; static const uint8_t HB_STATE[] = { 0, 4, 5, 127 };
 static int WIDE4;    /* cfg 6: four entries with four distinct times (2, 3, 4, 6 ticks), alphabet reduced to the four heartbeats and the tick, so that
                         histories of ten events are explored: four consumer timers pending at once, a restarted one queued between any two others */
-static const uint8_t WR_NODE[] = { NX, NX, NX, NY, NY, NY, 0 };  static const uint16_t WR_TIME[] = { 0, 2, 3, 0, 2, 3, 0 };
+static uint8_t WR_NODE[7];  static const uint16_t WR_TIME[] = { 0, 2, 3, 0, 2, 3, 0 };
 #define NWR 7
 static int ev_write0, ev_getev0, ev_last0, ev_tick, ev_sat, ev_stop, ev_start, ev_reset, n_ev;
 
@@ -22,7 +19,10 @@ static const char *cfg_name(int c) { static const char *const n[] = { "1 entry {
 
 static int build(int cfg)
 {
-    static const struct { int n; uint8_t node[4]; uint16_t time[4]; } C[] = {
+    if (mc_opt("edge", 0)) { NX = 127; NY = 126; NZ = 2; NW = 3; }
+    HB_NODE[0] = NX; HB_NODE[1] = NY; HB_NODE[2] = NZ; HB_NODE[3] = NW;
+    WR_NODE[0] = WR_NODE[1] = WR_NODE[2] = NX; WR_NODE[3] = WR_NODE[4] = WR_NODE[5] = NY; WR_NODE[6] = 0;
+    const struct { int n; uint8_t node[4]; uint16_t time[4]; } C[] = {
         { 1, { NX }, { 2 } }, { 2, { NX, NY }, { 2, 3 } }, { 2, { NX, 0 }, { 2, 0 } }, { 3, { NX, NY, 0 }, { 2, 3, 0 } }, { 3, { 0, 0, 0 }, { 0, 0, 0 } }, { 4, { NX, NY, 0, 0 }, { 3, 2, 0, 0 } }, { 4, { NX, NY, NZ, NW }, { 2, 3, 4, 6 } } };
     WIDE4 = (cfg == 6);
     nc_defaults();
